@@ -62,3 +62,21 @@ Definition handlers_follow_split (split : list (string * list string)) (t : list
                            end) day_phase_events.
 Definition closed_phase_events : list string :=
   ["PRE_BEFORE_TRADING"; "BEFORE_TRADING"; "POST_BEFORE_TRADING"; "PRE_AFTER_TRADING"; "AFTER_TRADING"; "POST_AFTER_TRADING"].
+
+(* EventBus.publish_event: the system listeners in registration order until one returns a truthy value, then every user listener.
+   `delivered ls e` = how many system listeners the event reaches. *)
+Fixpoint delivered {E} (ls : list (E -> bool)) (e : E) : nat :=
+  match ls with [] => 0%nat | l :: t => if l e then 1%nat else S (delivered t e) end.
+(* events that only an embedding application publishes (live trading: persist / restore on demand); a back-test never does *)
+Definition external_events : list string := ["DO_RESTORE"; "DO_PERSIST"].
+Definition in_strs (x : string) (l : list string) : bool := existsb (String.eqb x) l.
+(* the listeners the lifecycle model relies on (Gen/Listeners.v must contain them) *)
+Definition expected_phase_listeners : list (string * string) :=
+  [("core.strategy:Strategy.before_trading", "BEFORE_TRADING"); ("core.strategy:Strategy.open_auction", "OPEN_AUCTION"); ("core.strategy:Strategy.handle_bar", "BAR");
+   ("core.strategy:Strategy.after_trading", "AFTER_TRADING");
+   ("mod.rqalpha_mod_sys_simulation.simulation_broker:SimulationBroker.before_trading", "BEFORE_TRADING");
+   ("mod.rqalpha_mod_sys_simulation.simulation_broker:SimulationBroker.on_bar", "BAR");
+   ("mod.rqalpha_mod_sys_simulation.simulation_broker:SimulationBroker.after_trading", "AFTER_TRADING");
+   ("portfolio.account:Account._on_before_trading", "PRE_BEFORE_TRADING"); ("portfolio.account:Account._on_settlement", "SETTLEMENT");
+   ("portfolio.account:Account.apply_trade", "TRADE"); ("portfolio.__init__:Portfolio._pre_before_trading", "PRE_BEFORE_TRADING");
+   ("core.strategy_universe:StrategyUniverse._clear_de_listed", "AFTER_TRADING")].
